@@ -4,6 +4,7 @@ from jaqalpaq.core.algorithm.visitor import Visitor
 from jaqalpaq.core.circuit import Circuit
 from jaqalpaq.core.block import BlockStatement, LoopStatement
 from jaqalpaq.core.gatedef import GateDefinition
+from jaqalpaq.core.macro import Macro
 
 
 def expand_subcircuits(circuit, prepare_def=None, measure_def=None):
@@ -62,12 +63,17 @@ class SubcircuitExpander(Visitor):
 
     def visit_Circuit(self, circuit):
         new_circuit = Circuit(native_gates=circuit.native_gates)
-        new_circuit.macros.update(circuit.macros)
+        for name, macro in circuit.macros.items():
+            new_circuit.macros[name] = self.visit(macro)
         new_circuit.constants.update(circuit.constants)
         new_circuit.registers.update(circuit.registers)
         new_circuit.usepulses.extend(circuit.usepulses)
         new_circuit.body.statements.extend(self.visit(circuit.body).statements)
         return new_circuit
+
+    def visit_Macro(self, macro):
+        """Subcircuit blocks in a macro body are expanded like any other."""
+        return Macro(macro.name, macro.parameters, self.visit(macro.body))
 
     def visit_LoopStatement(self, loop):
         return LoopStatement(loop.iterations, self.visit(loop.statements))
